@@ -155,13 +155,16 @@ def _rand_data(rng, vk, bits, n):
 
 def _random_history(rng, big):
     vk = rng.choice(["int", "int", "frac", "float"])
-    if vk == "float":
+    defaults = rng.random() < 0.1 and vk != "frac"   # Streamix() with its own defaults: keep False, zero 0.
+    if defaults:
+        zk, zero = "float", 0.0
+    elif vk == "float":
         zk, zero = rng.choice([("float", 0.0), ("int", 0), ("float", 0.5), ("int", -3)])
     elif vk == "frac":
         zk, zero = rng.choice([("frac", Fraction(0)), ("int", 0), ("frac", Fraction(2, 3))])
     else:
         zk, zero = rng.choice([("int", 0), ("int", 0), ("float", 0.0), ("frac", Fraction(0)), ("int", 7)])
-    keep = rng.random() < 0.3
+    keep = rng.random() < 0.3 and not defaults
     bits = _bits() if zk != "float" else None     # sums of distinct powers of two are not exact in a float
     ops = []
     nops = rng.randint(1, 40 if big else 14)
@@ -191,9 +194,8 @@ def _random_history(rng, big):
         if rng.random() < 0.3:
             tail.insert(0, {"op": "keep", "v": rng.random() < 0.5})
         c["ops"] = c["ops"] + tail + [NEXT]
-    if rng.random() < 0.1 and vk != "frac":
-        c["defaults"] = True          # Streamix() with the constructor's own defaults (keep False, zero 0.)
-        c["keep"], c["zero"], c["zk"] = False, 0, "float"
+    if defaults:
+        c["defaults"] = True
     return c
 
 
@@ -220,7 +222,34 @@ def _control_cases(rng, tier, scale):
     return cases
 
 
+def _exact_ok(c):
+    """float regime discipline: wherever a float takes part, every number is a small dyadic
+    (|x| < 2**20, denominator <= 64) and no Fraction with another denominator is mixed in, so that
+    every sum / comparison the impl makes in binary floating point is exact."""
+    if c["entry"] != "streamix":
+        return True
+    nums, floaty = [dec(c["zero"])], c["zk"] == "float"
+    for op in c["ops"]:
+        if op["op"] == "add":
+            if op.get("vk") == "float":
+                floaty = True
+            nums.extend(dec(x) for x in op["data"])
+            d = dec(op["delta"])          # count is always a float
+            if abs(d) >= 2 ** 20 or 64 % d.denominator != 0:
+                return False
+    if not floaty:
+        return True
+    return all(abs(x) < 2 ** 20 and 64 % x.denominator == 0 for x in nums)
+
+
 def generate(rng, tier, scale=1):
+    cases = _generate(rng, tier, scale)
+    bad = [c for c in cases if not _exact_ok(c)]
+    assert not bad, "generator left the exact regime: %r" % (bad[0],)
+    return cases
+
+
+def _generate(rng, tier, scale=1):
     cases = []
     if scale == 1:
         cases += _exhaustive(tier)
@@ -478,6 +507,14 @@ def tally(eng, c, io):
 # shrinking / neighbours / signatures
 # ----------------------------------------------------------------------------------------------
 def shrink(c):
+    return [x for x in _shrink(c) if _exact_ok(x)]
+
+
+def neighbours(c):
+    return [x for x in _neighbours(c) if _exact_ok(x)]
+
+
+def _shrink(c):
     ops = c["ops"]
     if c["entry"] == "control":
         for i in range(len(ops)):
@@ -516,7 +553,7 @@ def shrink(c):
         yield d
 
 
-def neighbours(c):
+def _neighbours(c):
     if c["entry"] == "control":
         yield dict(c, ops=c["ops"] + [{"op": "read"}])
         return
